@@ -52,6 +52,9 @@ def concretise(job, unit, res, workdir, log):
         for b in spec_fn.get('buffers', []):
             if b[1] in scalars and b[1] not in count_ids:
                 count_ids.append(b[1])
+        for ob in spec_fn.get('obj_buffers', []):
+            if ob[1] not in count_ids:
+                count_ids.append(ob[1])
         import itertools
         combos = [dict()]
         if count_ids and not job.get('cex_nosplit'):
@@ -204,6 +207,9 @@ def main():
     sys.exit(code)
 
 
+OUT = os.environ.get('QX_OUT', VERIF)   # seeded-change experiments write their evidence/replays elsewhere
+
+
 def run_property(pid, tier, seed, workdir, t0, a):
     def log(*x):
         print(*x, flush=True)
@@ -242,8 +248,8 @@ def run_property(pid, tier, seed, workdir, t0, a):
     known = [k for k in load_known() if k.get('property') == pid]
     violations = []
     kf_lines = []
-    shutil.rmtree(os.path.join(VERIF, 'replays', pid), ignore_errors=True)
-    os.makedirs(os.path.join(VERIF, 'replays', pid), exist_ok=True)
+    shutil.rmtree(os.path.join(OUT, 'replays', pid), ignore_errors=True)
+    os.makedirs(os.path.join(OUT, 'replays', pid), exist_ok=True)
     for r in failed:
         tot, ok, bad = r.counts()
         cx = concretise(r.job, r.job['unit'], r, workdir, log)
@@ -256,6 +262,8 @@ def run_property(pid, tier, seed, workdir, t0, a):
                 fresh.append(o)
         if not fresh:
             continue
+        _int = lambda o: bool(re.search(r'\.(loop_invariant_base|loop_invariant_step|loop_assigns|loop_decreases|loop_step_unwinding)\.\d+$', o['name']))
+        fresh.sort(key=lambda o: (1 if _int(o) else 0))
         internal = all(re.search(r'\.(loop_invariant_base|loop_invariant_step|loop_assigns|loop_decreases|loop_step_unwinding)\.\d+$', o['name']) for o in fresh)
         if internal and not cx.get('reproduced'):
             # only proof-internal obligations (invariant / variant) failed and the bounded concretisation has no failing
@@ -269,7 +277,7 @@ def run_property(pid, tier, seed, workdir, t0, a):
                    obligation=fresh[0]['name'], description=fresh[0]['description'], source='%s:%s' % (fresh[0]['file'], fresh[0]['line']),
                    failed_obligations=[dict(name=o['name'], description=o['description'], source='%s:%s' % (o['file'], o['line'])) for o in fresh],
                    cbmc_cmds=r.cmds, cbmc_log=r.log[-2000:], concretisation=cx)
-        path = os.path.join(VERIF, 'replays', pid, R.safe_name(r.name) + '.json')
+        path = os.path.join(OUT, 'replays', pid, R.safe_name(r.name) + '.json')
         with open(path, 'w') as f:
             json.dump(rec, f, indent=1, default=str)
         violations.append((path, cx.get('reproduced')))
@@ -277,9 +285,9 @@ def run_property(pid, tier, seed, workdir, t0, a):
         log(l)
     # evidence
     ev = evidence(pid, tier, seed, m, main_res, can_res, time.time() - t0, len(violations), canary_bad, undecided)
-    os.makedirs(os.path.join(VERIF, 'evidence'), exist_ok=True)
+    os.makedirs(os.path.join(OUT, 'evidence'), exist_ok=True)
     if not a.jobs:
-        with open(os.path.join(VERIF, 'evidence', pid + '.json'), 'w') as f:
+        with open(os.path.join(OUT, 'evidence', pid + '.json'), 'w') as f:
             json.dump(ev, f, indent=1)
     for path, rep in violations:
         log('VIOLATION property=%s replay=%s%s' % (pid, path, '' if rep else ' no-failing-input-found'))
